@@ -15,12 +15,14 @@
 (***************************************************************************)
 EXTENDS Integers, Sequences, FiniteSets, TLC, Json
 
-CONSTANTS MaxEvents
+CONSTANTS MaxEvents,
+          MaxTree     \* largest initial tree (number of candidate files present)
 
 \* candidate module files (as component sequences)
 CandFiles == { <<"m.lua">>, <<"a", "m.lua">>, <<"b", "m.lua">>, <<"a", "b", "m.lua">>,
                <<"m", "init.lua">>, <<"a", "init.lua">>, <<"a", "m", "init.lua">>, <<"m.so">>,
-               <<"xa", "m.lua">> }     \* a directory whose name merely ends with "a": no match for module a.m
+               <<"xa", "m.lua">>,      \* a directory whose name merely ends with "a": no match for module a.m
+               <<"m", "x", "m.lua">> } \* a directory named like the module on the way to another m.lua
 
 \* module names used in require(...), as component sequences
 Mods == { <<"m">>, <<"a", "m">>, <<"b", "m">>, <<"a", "b", "m">>, <<"a">>, <<"zz">> }
@@ -63,7 +65,7 @@ Expect(t) == [res |-> {Join(f, "/") : f \in Resolves(t, mod, sp)},
               pref |-> {Join(f, "/") : f \in Preferred(t, mod, sp)},
               so |-> SoTolerated(t, mod, sp)]
 
-Init == /\ tree \in SUBSET CandFiles
+Init == /\ tree \in {t \in SUBSET CandFiles : Cardinality(t) <= MaxTree}
         /\ mod \in Mods
         /\ sp \in Spellings
         /\ hist = <<>>
